@@ -22,7 +22,7 @@ THEOREMS = ['byte_rt', 'byte_overflow', 'bool_rt', 'u32_rt', 'u32_overflow', 'st
             'kexinit_rt', 'padLen_bounds', 'frame_eq', 'frame_wf', 'frame_read_back', 'frame_rfc', 'crc_fold', 'crc_table_eq_spec', 'crcCalc_lt', 'frame1_read_back', 'frames_read_back']
 # functions of the code whose Lean definitions are regenerated from the source on every run (harness/translate_logic.py); `GenLogic.<name>_eq_model`
 # (lean/SshAudit/Props/GenLogic*.lean) ties each to the hand-written model function the theorems above are about
-GEN_LOGIC = ['ssh1_crc32_table', 'ssh1_crc32_calc', 'mpint_length', 'send_packet_framing', 'read_packet1_lengths', 'read_packet2_lengths', 'parse_mpint', 'mpint2_pad_fmt', 'create_mpint', 'mpint1_nbytes', 'kex_write', 'kex_parse']
+GEN_LOGIC = ['ssh1_crc32_table', 'ssh1_crc32_calc', 'mpint_length', 'send_packet_framing', 'read_packet1_lengths', 'read_packet2_lengths', 'parse_mpint', 'mpint2_pad_fmt', 'create_mpint', 'mpint1_nbytes', 'kex_write', 'kex_parse', 'pkm_write', 'pkm_parse']
 TECHNIQUE = 'Lean 4 theorems (induction, omega, kernel-evaluated 256-entry CRC table) over a hand-written codec model + differential correspondence with the Python codecs'
 LEVEL_TEXT = ('Round-trip, framing and CRC statements are proved for every value and every byte string (unbounded) about the Lean model of the '
               'buffer classes; the model is executed by a compiled driver and compared op-by-op with the real ReadBuf/WriteBuf/SSH_Socket/'
